@@ -6,6 +6,8 @@ CONSTANTS
   MaxTicks = 1
   MaxCrashes = 0
   MaxOps = 1
+  MaxOps2 = 1
+  FirstSess = "c1"
   RunEnabled = TRUE
   Ops = {"submit"}
   FindUnitHoldsRLock = FALSE
